@@ -430,3 +430,9 @@ for _p in ("C01", "C02", "C03", "C05", "C06", "C08", "C13", "C14", "C15", "C18",
 # the constructor of H2Protocol (settings, decoder limit, the priority tree's capacity) with the HTTP/2 group
 for _p in ("C01", "C02", "C03", "C04", "C05", "C07", "C08", "C09", "C10", "C13", "C15", "C18"):
     _extend(_p, [HP + "__init__", H1P + "__init__"])
+# C06 "reused only if ... neither side asked to close": the recycle rule reads context.terminated,
+# which both worker_serve functions set before they wait for the listeners and connections
+PLAN["C06"]["units"] = PLAN["C06"]["units"] + SERVE_UNITS
+PLAN["C06"]["trusted_base"] = PLAN["C06"]["trusted_base"] + LIB_SERVE
+# C13 / C11: the handshake is read from the header list whatever the case of the names
+PLAN["C13"]["units"] = PLAN["C13"]["units"] + HKU
